@@ -8,16 +8,12 @@ Statements only; proofs are references to Lemmas/Filter*.  Model: Ldap3V/Model/F
 (RFC 4515 grammar + bare item + `(&)` `(|)` + a bare number as attribute type + any octet ≥ 0x80
 in values); `GRfc`: RFC 4515 as written (+ the documented extensions), over UTF-8 text.
 -/
-import Ldap3V.Lemmas.FilterBool
+import Ldap3V.Lemmas.FilterPrint
 import Ldap3V.Lemmas.FilterTlv
 import Ldap3V.Lemmas.FilterDialect
 namespace Ldap3V
 open Spec.Filter
 open Spec (Filter)
-
-theorem Filter.parse_some_iff (s : Bytes) (t : Tag) : Filter.parse s = some t ↔ Filter.parseO s = .ok t := by
-  unfold Filter.parse
-  cases h : Filter.parseO s <;> simp [Filter.Outcome.toOption]
 
 /-- Soundness: whatever is accepted is a string of the library's language, and the tag built is
 the RFC 4511 encoding of the tree that string denotes. -/
@@ -69,6 +65,90 @@ theorem C08_total (s : Bytes) : Filter.parseO s ≠ .panic ∧ Filter.parseMvO s
   have := Filter.parseO_total s
   unfold Filter.parse
   cases h : Filter.parseO s <;> simp_all [Filter.Outcome.toOption]
+
+/-- Every accepted string means what it says: decoding the BER (strict RFC 4511 decoder) gives a
+well-formed tree whose canonical RFC 4515 print is the input up to escaping (`normTop`: every `\hh`
+replaced by the canonical rendering of its octet, parentheses supplied for a bare item). -/
+theorem C08_means_what_it_says (s : Bytes) (t : Tag) (h : Filter.parse s = some t) :
+    ∃ f, ofTlv t.toTlv = some f ∧ wf f = true ∧ print f = normTop s := by
+  obtain ⟨f, hg, ht⟩ := C08_sound s t h
+  exact ⟨f, by rw [ht]; exact ofTlv_toTlv f, Filter.wf_of_GLib hg, Filter.print_eq_normTop hg⟩
+
+/-! ### rejection corollaries: one per class named in the property -/
+
+/-- unbalanced parentheses (every `(` `)` octet counts: they never stand for themselves) -/
+theorem C08_rejects_unbalanced (s : Bytes) (h : balanced 0 s = false) : Filter.parse s = none :=
+  Filter.reject_of_inv (fun _ _ hg => Filter.balanced_GLib hg) s h
+
+/-- trailing text after a complete parenthesised filter -/
+theorem C08_rejects_trailing_text (f : Filter) (s₁ s₂ : Bytes) (h : G .lib f s₁) (h2 : s₂ ≠ []) :
+    Filter.parse (s₁ ++ s₂) = none := by
+  obtain ⟨t, ht, _⟩ := Filter.filter_complete f s₁ h ((s₁ ++ s₂).length + 1) s₂ (by omega)
+  have : Filter.filtexpr (s₁ ++ s₂) = .ok t s₂ := Filter.alt_left ht
+  unfold Filter.parse Filter.parseO
+  rw [this]
+  cases s₂ with
+  | nil => exact absurd rfl h2
+  | cons c x => rfl
+
+/-- a malformed escape: a backslash not followed by two hex digits -/
+theorem C08_rejects_bad_escape (s : Bytes) (h : escapesOk s = false) : Filter.parse s = none :=
+  Filter.reject_of_inv (fun _ _ hg => Filter.escapesOk_GLib hg) s h
+
+/-- an unescaped special character: NUL anywhere, or a `(` that is neither the first octet nor
+preceded by one of `(` `&` `|` `!` `)` (i.e. inside a value or an attribute description).  An
+unescaped `)` in a value makes the string unbalanced or leaves trailing text; `\` is covered by
+`C08_rejects_bad_escape`, `*` by `C08_rejects_raw_asterisk` / `C08_rejects_adjacent_asterisks`. -/
+theorem C08_rejects_raw_special (s : Bytes) (h : (0 : UInt8) ∈ s ∨ parenPrevOk true s = false) :
+    Filter.parse s = none := by
+  rcases h with h | h
+  · cases hp : Filter.parse s with
+    | none => rfl
+    | some t =>
+      obtain ⟨f, hg, _⟩ := C08_sound s t hp
+      exact absurd h (Filter.noNul_GLib hg)
+  · exact Filter.reject_of_inv (fun _ _ hg => Filter.prev_GLib hg) s h
+
+/-- an unescaped `*` in the value of `>=`, `<=`, `~=` or an extensible match (anywhere after the
+operator's first octet), with or without the outer parentheses; in an `=` item an asterisk is the
+substring separator -/
+theorem C08_rejects_raw_asterisk (a x : Bytes) (c : UInt8) (ha : IsAttrDesc .lib a)
+    (hc : c = 0x3E ∨ c = 0x3C ∨ c = 0x7E ∨ c = 0x3A) (hx : (0x2A : UInt8) ∈ x) :
+    Filter.parse (a ++ c :: x) = none ∧ Filter.parse (0x28 :: ((a ++ c :: x) ++ [0x29])) = none := by
+  refine Filter.reject_star_in_op_value ha hc ?_
+  cases h : Filter.starFree x with
+  | false => rfl
+  | true =>
+    have := List.all_eq_true.mp h _ hx
+    simp at this
+
+/-- an empty attribute description: a `(` followed by something that cannot start a filter
+component (an operator, `)`, `*`, …), or a bare item starting that way -/
+theorem C08_rejects_empty_attr (s : Bytes)
+    (h : parenFollowOk false s = false ∨
+      ∃ c x, s = c :: x ∧ c ≠ 0x28 ∧ c ≠ 0x3A ∧ ALPHA c = false ∧ DIGIT c = false) :
+    Filter.parse s = none := by
+  rcases h with h | ⟨c, x, rfl, h1, h2, h3, h4⟩
+  · exact Filter.reject_of_inv (fun _ _ hg => Filter.follow_GLib hg) s h
+  · cases hp : Filter.parse (c :: x) with
+    | none => rfl
+    | some t =>
+      obtain ⟨f, hg, _⟩ := C08_sound _ t hp
+      rcases hg with hg | hg
+      · obtain ⟨y, e⟩ := Filter.G_head hg
+        cases e; exact absurd rfl h1
+      · obtain ⟨c', y, e, hc⟩ := Filter.item_head hg
+        cases e
+        rw [← Filter.ALPHA_eq, ← Filter.DIGIT_eq, h3, h4] at hc
+        rcases hc with hc | hc | hc
+        · cases hc
+        · cases hc
+        · exact absurd hc h2
+
+/-- adjacent asterisks -/
+theorem C08_rejects_adjacent_asterisks (s : Bytes) (h : noAdjacentStars false s = false) :
+    Filter.parse s = none :=
+  Filter.reject_of_inv (fun _ _ hg => Filter.noAdjacentStars_GLib hg) s h
 
 /-! ### the finding: the `dn` keyword is matched case-sensitively -/
 
@@ -124,5 +204,20 @@ example : GRfcLowerDn (.and [.eq [0x61] [0x76], .eq [0x62] [0x78], .not (.eq [0x
 example : (Filter.parse [0x28, 0x61, 0x3D, 0x76, 0x5C, 0x32, 0x61, 0x78, 0x29]).map (fun t => encode t.toTlv) =
     some [0xA3, 0x08, 0x04, 0x01, 0x61, 0x04, 0x03, 0x76, 0x2A, 0x78] := by decide
 example : (Filter.parse [0x28, 0x61, 0x3D, 0x66, 0x2A, 0x2A, 0x29]).isNone = true := by decide
+
+/-- the hypotheses of the rejection corollaries are met by the unit-test strings of filter.rs and
+friends: `(a=f**)`, `(a=v\2)`, `(a=v\0x)`, `(a=b(c))`, `(=x)`, `((a=b)`, `(a=v)garbage` -/
+example : noAdjacentStars false [0x28, 0x61, 0x3D, 0x66, 0x2A, 0x2A, 0x29] = false ∧
+    escapesOk [0x28, 0x61, 0x3D, 0x76, 0x5C, 0x32, 0x29] = false ∧
+    escapesOk [0x28, 0x61, 0x3D, 0x76, 0x5C, 0x30, 0x78, 0x29] = false ∧
+    parenPrevOk true [0x28, 0x61, 0x3D, 0x62, 0x28, 0x63, 0x29, 0x29] = false ∧
+    parenFollowOk false [0x28, 0x3D, 0x78, 0x29] = false ∧
+    balanced 0 [0x28, 0x28, 0x61, 0x3D, 0x62, 0x29] = false := by decide
+/-- `(a>=b*)`: attribute description `a`, operator octet `>`, rest `=b*` -/
+example : IsAttrDesc .lib [0x61] ∧ (0x2A : UInt8) ∈ [0x3D, 0x62, 0x2A] :=
+  ⟨⟨[0x61], [], Or.inl (by decide), by simp, rfl⟩, by decide⟩
+example : G .lib (.eq [0x61] [0x76]) [0x28, 0x61, 0x3D, 0x76, 0x29] := by
+  simp only [G]
+  exact ⟨_, GItem.eq ⟨[0x61], [], Or.inl (by decide), by simp, rfl⟩ (.lit (by decide) .nil), rfl⟩
 
 end Ldap3V
